@@ -1,17 +1,6 @@
 // ---- model fragment: pieces of the SDK used by packages/fee-abstraction (M4, M8, M8a, M9; TRUSTED) ----
 // `Val`, tuple -> Vec<Val> conversion, `require_auth_for_args`, `invoke_contract`, SEP-41 `TokenClient`.
 
-/// soroban_sdk::Val: an opaque host value; all the model knows is its encoding
-pub struct Val { pub v: Ghost<SV> }
-impl ToSV for Val {
-    open spec fn sv(&self) -> SV { self.v@ }
-    open spec fn unsv(v: SV) -> Self { Val { v: Ghost(v) } }
-    proof fn lemma_rt(&self) {}
-}
-impl Clone for Val {
-    #[verifier::external_body]
-    fn clone(&self) -> (r: Self) ensures r == *self { unimplemented!() }
-}
 
 /// the host values of a vector of `Val`s, element by element
 pub open spec fn vals_sv(s: Seq<Val>) -> Seq<SV> { Seq::new(s.len(), |i: int| s[i].sv()) }
